@@ -415,7 +415,8 @@ impl SourceInfo {
     /// the line number is given as the last line and the character number
     /// is given as the number of characters after the start of the line.
     pub fn get_pos_pair(&self, index: usize) -> (usize, usize) {
-        let lno = self.get_line(index);
+        // An index past the end of the source is on the last line.
+        let lno = self.get_line(index).min(self.count_lines() - 1);
 
         let Range { start: lstart, .. } = self.raw_line_span(lno)
             .or_else(|| self.raw_line_span(self.nl_indices.len()))
